@@ -40,6 +40,7 @@ type Config struct {
 	AllowPanic   bool
 	CoverModels  bool
 	DumpSMT      string
+	AbstractTime bool
 }
 
 type PathOpts struct {
@@ -230,25 +231,21 @@ func parseFPLit(s string) (float64, bool) {
 	return 0, false
 }
 
-func decodeSymVar(sv *symVar, raw map[string]string) interface{} {
-	val := func(t *Term) string { return raw[t.name] }
+func decodeSymVar(sv *symVar, m Model) interface{} {
+	val := func(t *Term) mval { return m[t.name] }
 	switch sv.Kind {
 	case "int":
-		v, _ := parseBVLit(val(sv.Terms[0]))
-		return strconv.FormatInt(sext(v, sv.Width), 10)
+		return strconv.FormatInt(sext(val(sv.Terms[0]).bv, sv.Width), 10)
 	case "uint":
-		v, _ := parseBVLit(val(sv.Terms[0]))
-		return strconv.FormatUint(v, 10)
+		return strconv.FormatUint(val(sv.Terms[0]).bv, 10)
 	case "bool":
-		return strings.TrimSpace(val(sv.Terms[0])) == "true"
+		return val(sv.Terms[0]).bv != 0
 	case "float64":
-		f, _ := parseFPLit(val(sv.Terms[0]))
-		return fmt.Sprintf("0x%016x", math.Float64bits(f))
+		return fmt.Sprintf("0x%016x", math.Float64bits(val(sv.Terms[0]).f))
 	case "string":
 		var sb strings.Builder
 		for i := 0; i < sv.Len; i++ {
-			v, _ := parseBVLit(val(sv.Terms[1+i]))
-			fmt.Fprintf(&sb, "%02x", v&0xff)
+			fmt.Fprintf(&sb, "%02x", val(sv.Terms[1+i]).bv&0xff)
 		}
 		return map[string]interface{}{"hex": sb.String()}
 	}
@@ -280,6 +277,7 @@ type HarnessResult struct {
 	SolverErrs []string                     `json:"solver_errors"`
 	Functions  []string                     `json:"functions_executed"`
 	Decisions  int                          `json:"max_decisions"`
+	Wins       map[string]int               `json:"solver_wins"`
 }
 
 type Explorer struct {
@@ -288,7 +286,7 @@ type Explorer struct {
 	harness *ssa.Function
 	mu      sync.Mutex
 	cond    *sync.Cond
-	stack   [][]int
+	stack   []workItem
 	active  int
 	res     *HarnessResult
 	seenV   map[string]int
@@ -297,6 +295,7 @@ type Explorer struct {
 	fnSeen  map[string]bool
 	stop    bool
 	start   time.Time
+	sem     chan struct{}
 }
 
 func (e *Explorer) Run() *HarnessResult {
@@ -307,7 +306,7 @@ func (e *Explorer) Run() *HarnessResult {
 	e.unk = map[string]bool{}
 	e.fnSeen = map[string]bool{}
 	e.cond = sync.NewCond(&e.mu)
-	e.stack = [][]int{{}}
+	e.stack = []workItem{{prefix: []int{}, model: Model{}}}
 	e.start = time.Now()
 	covers := map[string]bool{}
 	var wg sync.WaitGroup
@@ -336,12 +335,18 @@ func (e *Explorer) Run() *HarnessResult {
 					e.cond.Broadcast()
 					return
 				}
-				prefix := e.stack[len(e.stack)-1]
+				item := e.stack[len(e.stack)-1]
 				e.stack = e.stack[:len(e.stack)-1]
 				e.active++
 				e.mu.Unlock()
 
-				pr, fns := runPath(e.prog, e.cfg, e.harness, prefix, s)
+				if e.sem != nil {
+					e.sem <- struct{}{}
+				}
+				pr, fns := runPath(e.prog, e.cfg, e.harness, item.prefix, item.model, s)
+				if e.sem != nil {
+					<-e.sem
+				}
 
 				e.mu.Lock()
 				e.active--
@@ -386,7 +391,9 @@ func (e *Explorer) Run() *HarnessResult {
 				if len(pr.Trace) > e.res.Decisions {
 					e.res.Decisions = len(pr.Trace)
 				}
-				e.stack = append(e.stack, pr.NewPrefixes...)
+				for i, np := range pr.NewPrefixes {
+					e.stack = append(e.stack, workItem{prefix: np, model: pr.NewModels[i]})
+				}
 				if e.cfg.MaxPaths > 0 && e.res.Paths >= e.cfg.MaxPaths {
 					e.stop = true
 				}
@@ -405,6 +412,12 @@ func (e *Explorer) Run() *HarnessResult {
 		e.res.Unsat += s.Unsat
 		e.res.UnknownQ += s.Unknown
 		e.res.SolverSec += s.Time.Seconds()
+		if e.res.Wins == nil {
+			e.res.Wins = map[string]int{}
+		}
+		for k, v := range s.Wins {
+			e.res.Wins[k] += v
+		}
 		for _, er := range s.Errors {
 			if len(e.res.SolverErrs) < 5 {
 				e.res.SolverErrs = append(e.res.SolverErrs, er)
@@ -441,12 +454,18 @@ func (e *Explorer) Run() *HarnessResult {
 	return e.res
 }
 
-func runPath(prog *ssa.Program, cfg *Config, harness *ssa.Function, prefix []int, s *Solver) (*PathResult, []string) {
+type workItem struct {
+	prefix []int
+	model  Model
+}
+
+func runPath(prog *ssa.Program, cfg *Config, harness *ssa.Function, prefix []int, model Model, s *Solver) (*PathResult, []string) {
 	s.Reset()
 	ip := &Interp{prog: prog, cfg: cfg, tb: NewTermBuilder(), solver: s, prefix: prefix,
 		globals: map[*ssa.Global]*Cell{}, extra: map[*Cell]interface{}{}, symBy: map[string]*symVar{},
 		initDone: map[*ssa.Package]bool{}, nameCount: map[string]int{}, maxPreempt: cfg.MaxPreempt,
 		wantCoverModels: cfg.CoverModels}
+	ip.curModel = model
 	ip.opt = &PathOpts{MapOrderAll: cfg.MapOrderAll, SymbolicNow: cfg.SymbolicNow}
 	ip.res = &PathResult{Asserts: map[string]int{}, Concrete: map[string]int{}, Covers: map[string]bool{},
 		CoverModels: map[string]map[string]interface{}{}}
@@ -475,6 +494,12 @@ loop:
 		time.Sleep(20 * time.Microsecond)
 	}
 	ip.res.Trace = ip.trace
+	if ip.conc.end.kind == "done" && ip.conc.end.msg == "" && ip.wantCoverModels && ip.curModel != nil && len(ip.res.Violations) == 0 {
+		dm := ip.decodeModel(ip.curModel)
+		for l := range ip.res.Covers {
+			ip.res.CoverModels[l] = dm
+		}
+	}
 	ip.res.End = ip.conc.end.kind
 	ip.res.EndMsg = ip.conc.end.msg
 	ip.res.Steps = ip.steps
